@@ -179,15 +179,19 @@ def render_guard(guard: Optional[GuardIR]) -> Optional[str]:
     """
     if guard is None:
         return None
-    if not guard.is_composite:
+    if not guard.is_composite and not guard.params:
         return literal(guard.type)
-    children = ", ".join(
-        _render_guard_value(child) for child in guard.children
-    )
-    return (
-        f"{{'type': {literal(guard.type)}, "
-        f"'params': {{'guards': [{children}]}}}}"
-    )
+    # 📝 `params` is emitted verbatim: it carries a plain guard's arguments
+    #    and, for composites written the XState way, the operands themselves.
+    parts = [f"'type': {literal(guard.type)}"]
+    if guard.params:
+        parts.append(f"'params': {literal(guard.params)}")
+    if guard.inline_children:
+        children = ", ".join(
+            _render_guard_value(child) for child in guard.children
+        )
+        parts.append(f"'children': [{children}]")
+    return "{" + ", ".join(parts) + "}"
 
 
 def _render_guard_value(guard: GuardIR) -> str:
